@@ -13,6 +13,7 @@ from fractions import Fraction
 from ..disc1d import Disc1D, KAPPA_NOMINAL, N
 from ..interp import SelfObj
 from ..project import AnalysisError
+from .c02 import _decide
 from ..stencil import NLin
 from .c11 import decoded, uniform_mesh
 
@@ -84,6 +85,38 @@ def ref_wiring(check, proj):
         out = it.call_function(f, [so])
         okb = isinstance(out, list) and len(out) == 3 and all(hasattr(g, "num") and A.equal(g, w) for g, w in zip(out, want))
         check.record("REF-WIRING", f.qualname, okb, "%s() returns its own side's state" % nm, f.loc(), key=nm)
+
+
+def ref_nozzle_state(check, proj):
+    """the packaged nozzle reference: whatever Mach / pressure distribution the external library
+    returns, the primitive state built from it is one perfect-gas state -- p = scale*Ps,
+    p/rho = r*T = ref_rttot/(Tt/T)(M), u = M*sqrt(gamma*p/rho) -- for every scale and reference
+    total temperature (the external functions are uninterpreted)"""
+    from ..algebra import Algebra
+    from ..interp import Interp, GvnDomain, SelfObj, ExtCall
+    cls = proj.cls("solution.euler_nozzle.nozzle")
+    f = proj.resolve(cls, "primdata")
+    if f is None:
+        raise AnalysisError("solution.euler_nozzle.nozzle.primdata not found")
+    A = Algebra()
+    dom = GvnDomain(A)
+    it = Interp(proj, dom)
+    it.opaque_modules = ("aerokit",)
+    gam = A.sym("gamma", gt=1)
+    M, Ps = A.sym("Mach", positive=True), A.sym("Ps", positive=True)
+    scale, rtt = A.sym("scale_ps", positive=True), A.sym("ref_rttot", positive=True)
+    so = SelfObj(cls, {"_gam": gam, "_M": M, "_Ps": Ps, "_Pt": A.sym("Pt", positive=True), "_scale_ps": scale, "_ref_rttot": rtt})
+    # external isentropic functions: uninterpreted positive functions of their (ring-valued) arguments
+    it.ext_value = lambda name, args, kwargs: A.opaque(name.split(".")[-1], [a for a in list(args) + [kwargs[k] for k in sorted(kwargs)] if hasattr(a, "num")], positive=True)
+    out = it.call_function(f, [so])
+    if not (isinstance(out, list) and len(out) == 3 and all(hasattr(x, "num") for x in out)):
+        check.undecided("REF-STATE", f.qualname, "primdata does not return three ring values (%r)" % (out,), f.loc())
+        return
+    rho, u, p = out
+    T = A.opaque("TiTs_Mach", [M, gam], positive=True)
+    _decide(check, "REF-STATE", f.qualname, f.loc(), A, p, scale * Ps, "pressure == scale_ps * Ps", key="p")
+    _decide(check, "REF-STATE", f.qualname, f.loc(), A, p, rho * rtt / T, "p/rho == r*T = ref_rttot / (Tt/T)(Mach): density and pressure belong to the same state for every pressure scale", key="gas")
+    _decide(check, "REF-STATE", f.qualname, f.loc(), A, u * u * rho, M * M * gam * p, "u == Mach * sqrt(gamma p / rho)", key="mach")
 
 
 def integ_order(check, proj):
@@ -168,6 +201,7 @@ def _body_paths(check):
         if o.rule == "KAPPA-STENCIL":
             o.rule = "ORDER-CIRCULANT"
     check.guarded("REF-WIRING", "solution.euler_riemann", lambda: ref_wiring(check, proj))
+    check.guarded("REF-STATE", "solution.euler_nozzle", lambda: ref_nozzle_state(check, proj))
     # premises of the statement's other factors.  'x high-order integrators': the explicit
     # integrators must reach their nominal order, otherwise the time error caps the observed order
     # (same exact-rational obligations as C05).  'every upwind flux ... rarefactions': the HLL-type
@@ -175,6 +209,18 @@ def _body_paths(check):
     # transonic rarefaction is captured as an expansion shock and the L1 error stalls (same
     # obligation as C10 WAVE-ENCLOSE).
     check.guarded("INTEG-ORDER", "integration", lambda: integ_order(check, proj))
+    # ... and the implicit names of order 2 (cranknicolson / trapezoidal / gear) are the theta / BDF2
+    # schemes of that order (same obligations as C06 TH-SCHEME / LMM-ORDER)
+    from . import c06
+    for c in c06.implicit_classes(proj):
+        n0 = len(check.obs)
+        check.guarded("INTEG-ORDER", c.qualname, lambda: c06.th_scheme(check, proj, c), c.loc())
+        kept = []
+        for o in check.obs[n0:]:
+            if o.rule == "LMM-ORDER" or o.status == "undecided":        # the order condition only; which theta is C06's clause
+                o.rule = "INTEG-ORDER"
+                kept.append(o)
+        check.obs[n0:] = kept
     from .c10 import enclose
     n0 = len(check.obs)
     check.guarded("WAVE-ENCLOSE", "numflux", lambda: enclose(check, proj))
